@@ -47,3 +47,54 @@ Example C10_lexer_roundtrip_example :
   forallb (fun x => forallb wf_sep (fst x) && wf_tok (snd x)) d = true /\
   map t_kind (fst (lex (render d [SWs Lexer.nl]))) = [LxIdentifier; LxDefine; LxChar; LxPrec; LxIdentifier; LxActionQuote; LxEnd; LxEOF].
 Proof. vm_compute. split; reflexivity. Qed.
+
+From YG Require Import Lexer Front YParser ParserRoundtrip.
+Close Scope Z_scope.
+Open Scope nat_scope.
+
+(* the parser model reads a token list that spells out a specification (declaration lines of every kind in any order, rule groups with alternatives, symbols, %prec annotations and actions, with or without ;) back into exactly that specification: spec_ast lists the declaration lines in order, one rule per alternative in order with its symbols, action bodies and %prec symbol, the literals first used in rules, and the text after the second %% mark; only kinds and values of the tokens matter *)
+Theorem C10_parser_roundtrip :
+  forall (sp : spec) (ts : list tok) (fin : tok) (rest : list tok) (fuel : nat),
+         Forall2 M ts (spec_kv sp) ->
+         spec_ok sp = true ->
+         finalk (t_kind fin) = true ->
+         2 * length (ts ++ fin :: rest) + 8 <= fuel ->
+         parse_tokens fuel (ts ++ fin :: rest) Closed =
+         PAst (spec_ast sp (if kind_eqb (t_kind fin) LxSection then t_rest fin else [])).
+Proof. exact ParserRoundtrip.parse_spec. Qed.
+Print Assumptions C10_parser_roundtrip.
+
+From YG Require Import Lexer Front YParser LexerRoundtrip ParserRoundtrip ParserRoundtripLex.
+Close Scope Z_scope.
+Open Scope nat_scope.
+
+(* lexer and parser together: a text whose tokens spell out the specification, separated by any blanks, line breaks and comments, is parsed into the AST of the specification *)
+Theorem C10_text_roundtrip :
+  forall (d : doc) (trail : list sepr) (sp : spec),
+         wf_doc d trail ->
+         Forall2 ltm (map snd d) (spec_kv sp) ->
+         spec_ok sp = true -> parse_text (render d trail) = PAst (spec_ast sp []).
+Proof. exact ParserRoundtripLex.parse_render. Qed.
+Print Assumptions C10_text_roundtrip.
+
+From YG Require Import Lexer Front YParser LexerRoundtrip ParserRoundtrip ParserRoundtripLex.
+Close Scope Z_scope.
+Open Scope nat_scope.
+
+(* layout does not matter: the same tokens separated in any two ways give the same result *)
+Theorem C10_layout_irrelevant :
+  forall (d1 : doc) (t1 : list sepr) (d2 : doc) (t2 : list sepr) (sp : spec),
+         wf_doc d1 t1 ->
+         wf_doc d2 t2 ->
+         map snd d1 = map snd d2 ->
+         Forall2 ltm (map snd d1) (spec_kv sp) ->
+         spec_ok sp = true -> parse_text (render d1 t1) = parse_text (render d2 t2).
+Proof. exact ParserRoundtripLex.layout_irrelevant. Qed.
+Print Assumptions C10_layout_irrelevant.
+
+(* the premises are satisfiable: a small grammar, once with single blanks, once with comments and line breaks *)
+Example C10_text_roundtrip_example :
+  parse_text (render ex_doc1 []) = PAst (spec_ast ex_spec []) /\
+  parse_text (render ex_doc2 []) = parse_text (render ex_doc1 []).
+Proof. exact (conj (proj1 ex_parsed) (proj1 (proj2 ex_parsed))). Qed.
+Print Assumptions C10_text_roundtrip_example.
